@@ -1187,6 +1187,7 @@ mod verif_layout {
                 let e = &*self.data;
                 l.wraps_off = &e.wraps as *const AtomicUsize as usize - self.data as usize;
                 l.val_off = &e.val as *const T as usize - self.data as usize;
+                l.refcnt_off = &(*self.refs).refcnt as *const AtomicUsize as usize - self.refs as usize;
             }
             self.manager.verif_layout(l);
         }
